@@ -54,5 +54,94 @@ def exportAndMerge (w : World) (path name text : Str) : World × Outcome :=
             let content := Fs.writeAt orig (Fs.byteLen Merge.NOTE) buffer
             ({ w with fs := w.fs.set loc (.file content), reg := regInsert w.reg k name }, .ok)
 
+/-! ### the entry points over a table of types
+
+What a type contributes to exporting is summarised by `TyInfo` (its identifier, relative output
+path, the text `export_to_string` returns, and the exportable types `visit_dependencies` visits, in
+order). The export machinery itself — `export_to`, `export_into`, `export_recursive` and the three
+public entry points — is transcribed below. -/
+
+structure TyInfo where
+  ident : Str
+  outputPath : Option Str
+  text : Except ExportErr Str
+  deps : List Nat
+  deriving Repr, Inhabited
+
+abbrev Universe := List TyInfo
+
+def cwdStr (fs : Fs) : Str := '/' :: intercalate ['/'] fs.cwd
+
+/-- `export_to::<T, _>(path)` (export.rs, without the `format` feature). The path is normalised
+    first (`path::absolute`), so the registry key is the same for every entry point. -/
+def exportTo (w : World) (t : TyInfo) (path0 : Str) : World × Outcome :=
+  match Path.absolute (cwdStr w.fs) path0 with
+  | .error e => (w, .err e)
+  | .ok path =>
+    match t.text with
+    | .error e => (w, .err e)
+    | .ok buffer =>
+      match Path.parent path with
+      | none => exportAndMerge w path t.ident buffer
+      | some par =>
+        match w.fs.createDirAll par with
+        | none => (w, .err .io)
+        | some fs' => exportAndMerge { w with fs := fs' } path t.ident buffer
+
+/-- `export_into::<T>(out_dir)` (export.rs:91-100) -/
+def exportInto (w : World) (t : TyInfo) (outDir : Str) : World × Outcome :=
+  match t.outputPath with
+  | none => (w, .err .cannotBeExported)
+  | some op =>
+    match Path.absolute (cwdStr w.fs) (Path.join outDir op) with
+    | .error e => (w, .err e)
+    | .ok p => exportTo w t p
+
+/-- `export_recursive` + `Visit::visit` (export.rs:45-87): depth-first, `seen` keyed by the
+    instantiation, non-exportable dependencies skipped, the first error stops the walk.
+    `fuel` bounds the recursion depth (the number of types suffices). Returns `none` on fuel
+    exhaustion. -/
+def exportRec (u : Universe) : Nat → World → List Nat → Str → Nat → Option (World × List Nat × Outcome)
+  | 0, _, _, _, _ => none
+  | fuel + 1, w, seen, outDir, i =>
+    if i ∈ seen then some (w, seen, .ok)
+    else
+      match u[i]? with
+      | none => none
+      | some t =>
+        let seen := i :: seen
+        match exportInto w t outDir with
+        | (w1, .ok) =>
+          -- visit_dependencies(&mut visitor)
+          t.deps.foldl (fun acc d =>
+            match acc with
+            | none => none
+            | some (w2, seen2, o) =>
+              if o ≠ .ok then some (w2, seen2, o)              -- `self.error.is_some()` → return
+              else match u[d]? with
+                | none => none
+                | some td =>
+                  if td.outputPath.isNone then some (w2, seen2, .ok)
+                  else exportRec u fuel w2 seen2 outDir d) (some (w1, seen, .ok))
+        | (w1, o) => some (w1, seen, o)
+
+inductive Entry where
+  | export (i : Nat)
+  | exportAll (i : Nat)
+  | exportAllTo (i : Nat) (dir : Str)
+  deriving Repr, Inhabited
+
+/-- `TS::export`, `TS::export_all`, `TS::export_all_to` (lib.rs:500-552) -/
+def runEntry (u : Universe) (defaultOutDir : Str) (w : World) : Entry → Option (World × Outcome)
+  | .export i =>
+    match u[i]? with
+    | none => none
+    | some t =>
+      match t.outputPath with
+      | none => some (w, .err .cannotBeExported)
+      | some op => some (exportTo w t (Path.join defaultOutDir op))
+  | .exportAll i => (exportRec u (u.length + 1) w [] defaultOutDir i).map fun r => (r.1, r.2.2)
+  | .exportAllTo i dir => (exportRec u (u.length + 1) w [] dir i).map fun r => (r.1, r.2.2)
+
 end Export
 end TsRs
